@@ -108,7 +108,53 @@ func (in *Interp) flat(s Str) Str {
 // %v / %t rendering of a symbolic bool) into bytes: the number of digits is
 // decided by branching on the value's range, each digit is a term.
 func (in *Interp) expandOpaque(op *Opaque) ([]Sc, bool) {
+	if op.Kind == "substr" && len(op.Args) == 2 {
+		// a slice of a constant string at symbolic bounds (an entry of a
+		// name table): one path per entry
+		tl, th := in.term(op.Args[0]), in.term(op.Args[1])
+		aux := strOf(op.Aux).B
+		if len(aux) >= 2 && len(aux) <= 256 {
+			// the length is concretised (few values), each byte is an
+			// if-then-else chain over the symbolic start
+			in.ex.NarrowOnce = true
+			n := int(in.ex.Concretize(in.tt.Bin(OSub, th, tl)))
+			in.ex.NarrowOnce = false
+			if n < 0 || n > len(aux) {
+				return nil, false
+			}
+			out := make([]Sc, n)
+			for j := range out {
+				out[j] = in.byteAt(aux, in.tt.Bin(OAdd, tl, in.tt.Const(64, uint64(j))))
+			}
+			return out, true
+		}
+		// (which entry of the name table is rendered into bytes is, like the
+		// layout of a number, not explored: one alternative)
+		in.ex.NarrowOnce = true
+		lo := int(in.ex.Concretize(tl))
+		in.ex.NarrowOnce = true
+		hi := int(in.ex.Concretize(th))
+		in.ex.NarrowOnce = false
+		if lo < 0 || hi > len(op.Aux) || lo > hi {
+			return nil, false
+		}
+		return strOf(op.Aux[lo:hi]).B, true
+	}
 	if len(op.Args) != 1 || (op.Verb != "%v" && op.Verb != "%d" && !(op.Verb == "%t" && op.Kind == "bool")) {
+		return nil, false
+	}
+	if op.Kind == "duration" && op.Verb == "%v" {
+		// time.Duration.String from its real code, as number formatting
+		if tp := in.w.prog.ImportedPackage("time"); tp != nil {
+			if fn := in.w.prog.LookupMethod(tp.Type("Duration").Type(), tp.Pkg, "String"); fn != nil && fn.Blocks != nil {
+				in.fmtDepth++
+				r := in.callFunction(fn, []Val{op.Args[0]}, nil)
+				in.fmtDepth--
+				if s, ok := r.(Str); ok && s.R == nil {
+					return s.B, true
+				}
+			}
+		}
 		return nil, false
 	}
 	tt := in.tt
@@ -131,14 +177,19 @@ func (in *Interp) expandOpaque(op *Opaque) ([]Sc, bool) {
 		out = append(out, Sc{W: 8, C: '-'})
 		v = tt.Un(OBvNeg, v)
 	}
-	// number of digits
+	// number of digits (as for strconv: the layout of a number is not
+	// explored, one alternative is kept)
 	nd := 1
 	pow := uint64(10)
 	for ; nd < 20; nd++ {
 		if v.W < 64 && pow >= 1<<uint(v.W) {
 			break
 		}
-		if in.ex.Branch(tt.Cmp(OUlt, v, tt.Const(v.W, pow))) {
+		in.ex.NarrowOnce = true
+		in.fmtForks++
+		lt := in.ex.Branch(tt.Cmp(OUlt, v, tt.Const(v.W, pow)))
+		in.ex.NarrowOnce = false
+		if lt {
 			break
 		}
 		if pow > (1<<63)/5 {
